@@ -104,6 +104,10 @@ def r2(ctx, esc):
             if f.fq in LOOP_EXEMPT:
                 ctx.ob("R2", "LOOP", f, key + " [exempt]", True, "exempt: " + LOOP_EXEMPT[f.fq], st, nontrivial=False)
                 continue
+            drv = _driven_by_exempt(ctx, esc, f, st)
+            if drv:
+                ctx.ob("R2", "LOOP", f, key + " [exempt]", True, "exempt: " + drv, st, nontrivial=False)
+                continue
             ok, detail, info = loops.analyse_loop(ctx, f, st)
             in_reach = f.fq in reach
             # construct key: the loop header plus its first body statement, so that two `while True` in one function differ
@@ -120,6 +124,25 @@ def r2(ctx, esc):
                 off = [k.arg for k in c.keywords if k.arg in conds and is_const(k.value, False)]
                 ctx.ob("R2", "LOOP", f, "recursion " + src(c)[:60], bool(off), f"self-recursion is guarded by {conds} and the recursive call passes {off}=False (depth <= 1)" if off else
                        f"self-recursion under {conds} does not switch its guard off: unbounded depth", c)
+
+
+def _driven_by_exempt(ctx, esc, f, loop):
+    """A generator loop that hands control back to its consumer on every cycle (each way round the loop passes a `yield`)
+    runs exactly as long as the consumer keeps asking; when every call site of the generator lies in a function whose own
+    loop is exempt by design, the exemption covers this producer half of that loop too.  Otherwise: ''."""
+    cfg = ctx.cfg(f)
+    fv = FuncView.of(f.node)
+    ys = [fv.stmt_of(y) for y in ast.walk(loop) if isinstance(y, (ast.Yield, ast.YieldFrom))]
+    ys = [y for y in ys if y is not None and cfg.has(y)]
+    if not ys:
+        return ""
+    H = cfg.node(loop)
+    if cfg.reaches(cfg.edge_node(loop, "true"), H, avoiding=[cfg.node(y) for y in ys]):
+        return ""
+    sites = esc.callsites().get(f.fq, [])
+    if not sites or not all(g.fq in LOOP_EXEMPT for g, _c in sites):
+        return ""
+    return "producer half of " + ", ".join(sorted({g.fq for g, _c in sites})) + " (" + LOOP_EXEMPT[sites[0][0].fq] + "): every cycle yields to that consumer"
 
 
 def r3(ctx):
@@ -148,6 +171,48 @@ def r3(ctx):
         raises = [r for r in cfg.raise_stmts() if cfg.reaches(ex, cfg.node(r))]
         rets = [r for r in cfg.return_stmts() if cfg.reaches(ex, cfg.node(r))]
         none_rets = [r for r in rets if r.value is None or (isinstance(r.value, ast.Constant) and r.value.value is None)]
+        # a returned local that can only hold None when the scan was exhausted: every definition that is live at the
+        # exhaustion edge (or made after it) is the constant None
+        from csverif.astutil import assignments_to as _asg
+
+        def _none_there(r):
+            if not isinstance(r.value, ast.Name):
+                return False
+            fv3 = FuncView.of(f.node)
+            defs = []
+            for st3, v3 in _asg(f.node, r.value.id):
+                s3 = st3 if isinstance(st3, ast.stmt) else fv3.stmt_of(st3)
+                if s3 is None or not cfg.has(s3):
+                    return False
+                defs.append((cfg.node(s3), v3))
+            if not defs or r.value.id in [a.arg for a in f.node.args.args + f.node.args.kwonlyargs]:
+                return False
+            rn = cfg.node(r)
+            live = []
+            from csverif.q import tv_eval
+
+            for n3, v3 in defs:
+                others = [m for m, _v in defs if m != n3]
+                # while this definition is live the local is known not to be None (a non-None constant, an arithmetic
+                # result): branch edges that contradict it are not taken
+                assume = {}
+                if isinstance(v3, ast.Constant) and v3.value is not None:
+                    assume = {f"{r.value.id} is None": False, r.value.id: bool(v3.value)}
+                elif isinstance(v3, ast.BinOp):
+                    assume = {f"{r.value.id} is None": False}
+                if assume:
+                    for st4 in statements(f.node):
+                        if isinstance(st4, (ast.If, ast.While)) and cfg.has(st4):
+                            t4 = tv_eval(st4.test, assume)
+                            if t4 is not None:
+                                others = others + [cfg.edge_node(st4, "false" if t4 else "true")]
+                at_ex = cfg.reaches(n3, ex, avoiding=others) and cfg.reaches(ex, rn, avoiding=others)
+                after = cfg.reaches(ex, n3) and cfg.reaches(n3, rn, avoiding=others)
+                if at_ex or after:
+                    live.append(v3)
+            return bool(live) and all(isinstance(v3, ast.Constant) and v3.value is None for v3 in live)
+
+        none_rets += [r for r in rets if r not in none_rets and _none_there(r)]
         other = [r for r in rets if r not in none_rets]
         sep = all(any(t.endswith(" is None") and not pol or t.endswith(" is not None") and pol or (not t.count(" ") and pol) for t, pol, _n in dominating_conditions(ctx, f, r)) for r in other)
         ok = not raises and (bool(none_rets) or cfg.falls_off_end()) and sep
